@@ -73,7 +73,7 @@ def run(ctx):
                 m = np.ones(T, dtype=bool)
                 m[keep] = False
                 px[m] = ndv
-            a = dict(op=op, cube=cube.tolist(), nodata=ndv, order=("time", "y", "x"), thr=thr)
+            a = dict(op=op, cube=cube.tolist(), nodata=ndv, order=("time", "y", "x"), thr=thr, attr_nodata=-9999 if ndv == 0.0 else None)
             if op == "whitsvc":
                 a["srange"] = [float(v) for v in np.arange(-1, 1.2, 0.5)]
             else:
